@@ -30,6 +30,10 @@ and the number of chunks whose `last_applied` was published when the revision wa
 * `exact_at_revision_statement_false_file` — the literal reading "data = state at the reported revision" is
   false for the File engine too (data may be one chunk *ahead*: `last_applied` is stored after the data lock is
   released) — harmless for the documented use, see `resync_converges`.
+* `leader_scan_passthrough`, `leader_scan_exact_file/_rocks`, `non_leader_scan_rejected` — the API path
+  (`push_client_cmd(ClientCmd::Scan)`): the leader hands out exactly the engine's `(entries, revision)` for every
+  commit index, other roles refuse; `commit_anchored_revision_loses_update` shows what a revision taken from the
+  commit index would cost.
 * `resync_converges` — client side: if the scan's data contains every event with `revision ≤ scan.revision`
   (never behind; it may contain more), then snapshot + replay of the buffered events with larger revisions
   ends in exactly the final state: no update is missed, events seen twice are absorbed.
@@ -613,6 +617,42 @@ theorem exact_at_revision_statement_false_file : ¬ ExactAtRevisionFile := by
       have := hall o (by simp [hdone])
       simp only [hdone, List.map_cons, List.cons.injEq, Prod.mk.injEq] at hobs
       omega
+
+/-! ## the API path (leader serves the scan inline) -/
+
+/-- **The leader path returns exactly the engine's `(entries, revision)`**, for every commit index — so every
+    engine-level theorem above carries over to `ClientCmd::Scan`; in particular the revision is the applied
+    index the entries reflect, never the (possibly larger) commit index. -/
+theorem leader_scan_passthrough (commitIndex : Nat) (r : List (Key × Val) × Nat) :
+    roleScan .leader commitIndex r = some r := rfl
+
+theorem non_leader_scan_rejected (role : Role) (h : role ≠ .leader) (c : Nat) (r : List (Key × Val) × Nat) :
+    roleScan role c r = none := by
+  cases role <;> simp_all [roleScan]
+
+/-- Leader + File engine: exact entries, revision = `last_applied`, whatever has been committed beyond it. -/
+theorem leader_scan_exact_file (st : FileSt) (h : AMap.WF st.data) (p : Bytes) (commitIndex : Nat)
+    (res : List (Key × Val) × Nat) (hres : roleScan .leader commitIndex (fileScan st p) = some res) :
+    (∀ k v, (k, v) ∈ res.1 ↔ (startsWith k p = true ∧ fileAbs st k = some v)) ∧ res.2 = st.laIndex := by
+  simp only [roleScan, Option.some.injEq] at hres
+  subst hres
+  exact file_scan_exact st h p
+
+/-- Leader + RocksDB engine (non-empty prefix). -/
+theorem leader_scan_exact_rocks (st : RocksSt) (h : AMap.WF st.db) (p : Bytes) (hp : p ≠ []) (commitIndex : Nat)
+    (res : List (Key × Val) × Nat) (hres : roleScan .leader commitIndex (rocksScan st p) = some res) :
+    (∀ k v, (k, v) ∈ res.1 ↔ (startsWith k p = true ∧ rocksAbs st k = some v)) ∧ res.2 = st.laIndex := by
+  simp only [roleScan, Option.some.injEq] at hres
+  subst hres
+  exact ⟨(rocks_scan_exact st h p hp).1, (rocks_scan_exact st h p hp).2.1⟩
+
+/-- Why a revision anchored at the commit index would be wrong: entry 2 (`put a=x`) is committed but not yet
+    applied; a scan answer `(entries of the applied state, revision = commit index 2)` makes the client skip
+    event 2 and lose the key, whereas the pass-through answer (revision 1) keeps it. -/
+theorem commit_anchored_revision_loses_update :
+    let ev : WEvent := ⟨2, k1, some vx⟩
+    resync Store.empty 2 [ev] k1 = none ∧ resync Store.empty 1 [ev] k1 = some vx := by
+  simp [resync, replay, applyEvent, Store.set, Store.empty]
 
 /-! ## the client side: why "never behind" is the property that matters -/
 
